@@ -401,6 +401,49 @@ class Body:
                 continue
             i += 1
 
+    def rule_vec_chain(self):
+        """R14: vec![e1, .., en] -> __vec_lit().__with(e1)...__with(en) (the literal's elements in order; `vec![x; n]` untouched)"""
+        toks = self.toks
+        i = self.open
+        n = 0
+        while i < self.close:
+            if toks[i].kind == "ident" and toks[i].text == "vec" and toks[i + 1].text == "!" and toks[i + 2].text == "[":
+                j = match_close(toks, i + 2)
+                depth = 0
+                commas = []
+                semi = False
+                for k in range(i + 3, j):
+                    t = toks[k].text
+                    if t in ("(", "[", "{"):
+                        depth += 1
+                    elif t in (")", "]", "}"):
+                        depth -= 1
+                    elif depth == 0 and t == ",":
+                        commas.append(k)
+                    elif depth == 0 and t == ";":
+                        semi = True
+                if semi:
+                    i = j + 1
+                    continue
+                self.edits.append((toks[i].start, toks[i + 2].end, "__vec_lit()", "R14-vec"))
+                starts = [i + 3] + [c + 1 for c in commas]
+                ends = commas + [j]
+                for (a, b) in zip(starts, ends):
+                    if a >= b:
+                        continue          # trailing comma
+                    self.insert(toks[a].start, ".__with(", "R14-vec", order=-2 * 10 ** 12)
+                    if b in commas:
+                        self.edits.append((toks[b].start, toks[b].end, ")", "R14-vec"))
+                    else:
+                        self.insert(toks[b].start, ")", "R14-vec", order=2 * 10 ** 12)
+                self.edits.append((toks[j].start, toks[j].end, "", "R14-vec"))
+                n += 1
+                i += 3
+                continue
+            i += 1
+        if n:
+            self.report.append(("R14-vec", f"{n} vec! literal(s) rewritten to a push chain"))
+
     def rule_format_pieces(self, names=("format", "write")):
         """R4b: format!/write! with a literal format string -> piecewise concatenation of stand-ins"""
         toks = self.toks
@@ -602,21 +645,29 @@ class Body:
         """R10: keep only the top-level statements from the one starting with start_prefix to the one
         starting with end_prefix (inclusive); everything else in the body is dropped and reported."""
         toks = self.toks
-        spans = stmt_spans(toks, self.open, self.close)
         sp = [t.text for t in lex(start_prefix)]
         before = end_prefix.strip().startswith("<")     # "<prefix": the fragment ends just BEFORE the statement with that prefix
         if before:
             end_prefix = end_prefix.strip()[1:]
         ep = [t.text for t in lex(end_prefix)] if end_prefix.strip() != "$" else []
         si = ei = None
-        for k, (s, e) in enumerate(spans):
-            if si is None and [t.text for t in toks[s:s + len(sp)]] == sp:
-                si = k
-            if si is not None and end_prefix.strip() != "$" and [t.text for t in toks[s:s + len(ep)]] == ep:
-                ei = k - 1 if before else k
+        # the function's own block first, then nested blocks in source order (a fragment of a loop body)
+        for (bo, bc) in all_blocks(toks, self.open, self.close):
+            spans = stmt_spans(toks, bo, bc)
+            si = ei = None
+            for k, (s, e) in enumerate(spans):
+                if si is None and [t.text for t in toks[s:s + len(sp)]] == sp:
+                    si = k
+                if si is not None and end_prefix.strip() != "$" and [t.text for t in toks[s:s + len(ep)]] == ep:
+                    ei = k - 1 if before else k
+                    break
+            if si is not None and end_prefix.strip() == "$":
+                ei = len(spans) - 1
+            if si is not None and ei is not None and ei >= si:
+                if bo != self.open:
+                    self.report.append(("R10-fragment", "fragment taken from a nested block (its enclosing loop/branch is dropped)"))
                 break
-        if si is not None and end_prefix.strip() == "$":
-            ei = len(spans) - 1
+            si = ei = None
         if si is None or ei is None:
             raise LostAnchor(f"{self.qual}: fragment anchors `{start_prefix}` .. `{end_prefix}` not found")
         a = toks[self.open].end
